@@ -149,7 +149,11 @@ class C07(Check):
             "element of the second expired / not yet valid / signed by a stranger / bit-flipped, or its "
             "quote corrupted, or nothing, with the target lists [a, b], [b, a], [a, b, a], [b, a, b], [a], [b]; "
             "(j) boundary values (0, 1, 2^(w-1)-1, 2^(w-1), 2^w-1) in all / each integer field of the signed "
-            "quote. Every reported quote is read through attributes, to_dict, repr and get_raw_data in "
+            "quote; (k) elements named like the root word (harmless extras beside a genuine chain; whole chains "
+            "really signed under an in-file pseudo-root of that name, alone and beside a genuine chain), "
+            "near-misses of the root word, names differing only in case; (l) genuine chains whose derived "
+            "values have a leading zero byte (key coordinates, binding hashes, message digests, signature "
+            "r and s; found by search). Every reported quote is read through attributes, to_dict, repr and get_raw_data in "
             "several orders (on one object and on fresh ones) and each reading compared, value and type, "
             "with an independent unsigned little-endian parse of the signed bytes. "
             "An execution is distinct by (part, corrupted element and field, verdict, failing element).")
@@ -339,6 +343,9 @@ class C07(Check):
                 cs.append({"kind": "curves", "depth": d, "level": lvl})
             cs.append({"kind": "roots", "depth": d})
         cs.append({"kind": "kinds"})
+        for part in range(4):
+            cs.append({"kind": "reserved", "part": part})
+        cs.append({"kind": "zeros"})
         for b in range(5):
             cs.append({"kind": "ints", "boundary": b})
         for d in (1, 2, 3):
@@ -585,6 +592,24 @@ class C07(Check):
             if e["type"] == "x509_pem":
                 self.evaluate(doc, G.pem_of(base64.b64decode(e["message"])), G.T0, "root:is-an-element",
                               stats, vs)
+
+    # ---- (l) derived values with leading zero bytes -----------------------------------------------
+    def run_zeros(self, case, stats, vs):
+        _, root_pem, _ = self.chain(2, "wide-top")
+        for label, d in G.zero_value_docs(self.world):
+            self.genuine(d, root_pem, G.T0, "genuine:" + label, stats, vs)
+
+    # ---- (k) element names colliding with reserved words of the format ---------------------------
+    def run_reserved(self, case, stats, vs):
+        """The root of trust is the one the operator gives: an in-file element named like the root
+        word certifies nothing, and is harmless next to a genuine chain."""
+        docs = G.reserved_name_docs(self.world)
+        _, root_pem, _ = self.chain(2, "wide-top")
+        for label, d, target in docs[case["part"]::4]:
+            exp = self.evaluate(d, root_pem, G.T0, label, stats, vs, target=target)
+            if label.startswith("reserved:extra-named-root") and (exp is None or exp["quote"][0] != R.OK):
+                raise HarnessError("genuine chain with an extra element named like the root word is "
+                                   "not valid for the reference verifier")
 
     # ---- (j) boundary values in every integer field of the signed quote ------------------------------
     def run_ints(self, case, stats, vs):
